@@ -4,8 +4,10 @@ CONSTANTS Table <- McTable
  Heavy <- McHeavy
  Probe <- McProbe
  MaxIn <- McMaxIn3
+ Dirs <- BothDirs
+ CrossProbe = FALSE
  MaxConns = 2
- ProbeAfter = 3
+ ProbeAfter = 4
  MaxFrameK = 25600
  SlackK = 16384
  C = 256
